@@ -350,8 +350,8 @@ META = {
                  "replayed through the real trim/crop in several value encodings and judged by TLC",
     "level_text": "TLC explores every raster over small value sets on grids up to 4x4 (plus 1xN, Nx1) on TrimCrop.tla: "
                   "the scan model ends on the minimal window of the kept cells, terminates, and its loop invariants hold; "
-                  "the model with the code's `e == val` test is rejected by TLC when NaN is listed (documented defect), "
-                  "negative twins are rejected.  Every kept-mask of those grids is run through the real trim (int/[0], "
+                  "the old bare `e == val` membership test (negative twin) is rejected by TLC when NaN is listed, as are "
+                  "three broken scans.  Every kept-mask of those grids is run through the real trim (int/[0], "
                   "float/default NaN, float/[NaN,0.0], float/[0.0]) and crop (two zone-id lists); TrimCrop_Judge.tla "
                   "decides that the returned window is the bounding box, a contiguous slice with the original's cells, "
                   "coordinates and attrs.  Seeded larger rasters (dtypes, layouts, coordinate orders) the same way.",
